@@ -148,4 +148,5 @@ func (*compiler).VisitUnaryExpr [C02]
   nopanic
   ensures c.latestReturnType == descr(c, resultUn(e.Operator, tyClassOf(e.Rhs)))
   ensures ir.irty(c.latestReturn) == irOfClass(resultUn(e.Operator, tyClassOf(e.Rhs)))
+  replay - replay_templates/c02_unary.sh - : op = e.Operator ; cls = tyClassOf(e.Rhs) ; res = resultUn(e.Operator, tyClassOf(e.Rhs))
 @*/
